@@ -6,7 +6,7 @@ RELEVANT = {'runinfo', 'log'}
 
 
 def plans(quick):
-    opts = {'runinfo': True}
+    opts = {'runinfo': True, 'record': True}   # record: failed attempts are taken from the observed DX events
     if quick:
         return [
             dict(family='chain', opts=opts,
@@ -30,3 +30,4 @@ def run(ctx):
                         'bodies; the library\'s own "run started / run ended" lines are neither required nor forbidden',
                         'timestamps, user name and library version in run info are not compared']
     run_families(ctx, plans(ctx.quick()), RELEVANT)
+    ctx.extra.pop('_recorded', None)
